@@ -11,7 +11,7 @@ class Harness:
     def __init__(self, name, file, inst, obligation, profile="R", tier="quick",
                  timeout=600, mem_gb=6, shape=None, input_class="any",
                  replay="playback", replay_args=None, unwind_is_violation=False,
-                 contract_stubs=(), note="", kissat=True, should_panic=False):
+                 contract_stubs=(), note="", kissat=True, should_panic=False, weight_gb=None):
         self.name = name                  # harness fn name (unique per property)
         self.file = file                  # harness source in /verif/harness
         self.inst = inst                  # macro instantiation line ('' when the fn is written out)
@@ -19,7 +19,8 @@ class Harness:
         self.profile = profile            # 'A' debug assertions on, 'R' off
         self.tier = tier                  # 'quick' (run in both tiers) or 'thorough'
         self.timeout = timeout
-        self.mem_gb = mem_gb
+        self.mem_gb = mem_gb              # address-space cap (ulimit -v) of the CBMC process
+        self.weight_gb = weight_gb        # expected resident size: what the scheduler's memory budget is charged (default: the cap)
         self.shape = shape or {}          # bounds of this instance, reported verbatim
         self.input_class = input_class    # role key used to match known findings
         self.replay = replay              # adapter name in vk.replay.ADAPTERS
